@@ -20,6 +20,7 @@ func init() {
 			"PV-NUM sum: Apply is state += v, Result the state",
 			"ERR-LOOP ReadStepResponse checks Err() after draining, on the instant path too; PV-NUM no raw sum of squares",
 			"LP-PIPE entryIterator.Next: a record that was read reaches the prefilter before the next is read; the record body is a copy of the frame buffer",
+			"PV-PURE Aggregate(points) writes nothing into its receiver; eviction runs on every path that reports a step",
 		},
 		NotDecided: []string{"numeric results of the aggregators (Welford, quantile interpolation)", "that the storage delivers samples in time order", "equality instant = range at T beyond the shared code path"},
 		Rules: func(r *Run) {
@@ -44,6 +45,7 @@ func init() {
 			ruleNoSumOfSquares(r)
 			ruleLPPipe(r) // every record the storage returns for the window reaches the sampler unless a filter rejects it
 			ruleDaemonLog(r)
+			ruleBatchAggregatorsStateless(r)
 		},
 	})
 }
